@@ -166,4 +166,38 @@ theorem reqText_sound (evs : List BodyEv) : ∀ buf,
       simp only [reqText, flat] at h ⊢
       exact ih _ h
 
+/-! ### header maps -/
+
+theorem getAll_hremove_self (k : Bytes) (h : List Pair) : TMap.getAll k (hremove k h) = [] := by
+  simp [TMap.getAll, hremove, List.filter_filter]
+
+theorem getAll_hremove_ne (k k' : Bytes) (h : List Pair) (hne : k ≠ k') :
+    TMap.getAll k (hremove k' h) = TMap.getAll k h := by
+  simp only [TMap.getAll, hremove, List.filter_filter]
+  congr 1
+  apply List.filter_congr
+  intro p _
+  by_cases hp : p.1 = k
+  · have : ¬ (k = k') := hne
+    simp [hp, this]
+  · simp [hp]
+
+theorem getAll_hinsert_self (k v : Bytes) (h : List Pair) : TMap.getAll k (hinsert k v h) = [v] := by
+  rw [hinsert, TMap.getAll_append, getAll_hremove_self]
+  simp [TMap.getAll]
+
+theorem getAll_hinsert_ne (k k' v : Bytes) (h : List Pair) (hne : k ≠ k') :
+    TMap.getAll k (hinsert k' v h) = TMap.getAll k h := by
+  have : ¬ (k' = k) := fun e => hne e.symm
+  rw [hinsert, TMap.getAll_append, getAll_hremove_ne k k' h hne]
+  simp [TMap.getAll, this]
+
+/-- `Body::new` hands every frame on: data chunks, then (if present) the trailers, then the end. -/
+theorem passRun_data_trailers (chunks : List Bytes) (t : List Pair) :
+    passRun (chunks.map BodyEv.data ++ [BodyEv.trailers t]) =
+      chunks.map Out.data ++ [Out.trailers (TMap.group t), Out.eos] := by
+  induction chunks with
+  | nil => rfl
+  | cons c cs ih => simp [reqBin] at ih ⊢; exact ih
+
 end WebServerLemmas
